@@ -45,6 +45,84 @@ theorem anyRot_false {b : Basis n} (h : anyRot b = false) : ∀ j, rotOf b j = f
   simpa using this
 
 
+/-! ### dictionaries given as Python association lists (`Metrics.dictFn`, `Metrics.userDict`) -/
+
+/-- a lookup either finds the FIRST entry with that key, or there is no such key and the fallback `dZ` is read -/
+theorem dictFn_cases (d : Unitaries.UDict ℝ) (c : Char) :
+    (∃ e ∈ d, e.1 = c ∧ dictFn d c = e.2) ∨ ((∀ e ∈ d, e.1 ≠ c) ∧ dictFn d c = Unitaries.dZ) := by
+  induction d with
+  | nil => right; exact ⟨by simp, rfl⟩
+  | cons e d ih =>
+    obtain ⟨k, v⟩ := e
+    by_cases h : c = k
+    · left
+      refine ⟨(k, v), by simp, h.symm, ?_⟩
+      simp [dictFn, h]
+    · have hb : (c == k) = false := by simpa using h
+      have hstep : dictFn ((k, v) :: d) c = dictFn d c := by
+        simp only [dictFn, List.lookup_cons, hb]
+      rcases ih with ⟨e', he', h1, h2⟩ | ⟨h1, h2⟩
+      · left; exact ⟨e', by simp [he'], h1, by rw [hstep, h2]⟩
+      · right
+        refine ⟨?_, by rw [hstep, h2]⟩
+        intro e' he'
+        rcases List.mem_cons.mp he' with rfl | he'
+        · exact fun hk => h hk.symm
+        · exact h1 e' he'
+
+theorem dictFn_of_lookup (d : Unitaries.UDict ℝ) (c : Char) (m : M2 ℝ) (h : d.lookup c = some m) : dictFn d c = m := by
+  simp [dictFn, h]
+
+theorem lookup_append_none {β : Type} (xs ys : List (Char × β)) (c : Char) (h : xs.lookup c = none) :
+    (xs ++ ys).lookup c = ys.lookup c := by
+  induction xs with
+  | nil => rfl
+  | cons e xs ih =>
+    obtain ⟨k, v⟩ := e
+    simp only [List.cons_append, List.lookup_cons] at h ⊢
+    cases hb : (c == k) with
+    | true => simp [hb] at h
+    | false => simp only [hb] at h ⊢; exact ih h
+
+theorem lookup_append_some {β : Type} (xs ys : List (Char × β)) (c : Char) (m : β) (h : xs.lookup c = some m) :
+    (xs ++ ys).lookup c = some m := by
+  induction xs with
+  | nil => simp at h
+  | cons e xs ih =>
+    obtain ⟨k, v⟩ := e
+    simp only [List.cons_append, List.lookup_cons] at h ⊢
+    cases hb : (c == k) with
+    | true => simpa [hb] using h
+    | false => simp only [hb] at h ⊢; exact ih h
+
+
+section exkw
+open Matrix
+/-- a Hadamard-extended dictionary with an S-type letter and an OVERRIDDEN `Y`:
+`create_dict(H = [[1,1],[1,-1]]/√2, S = diag(1, i), Y = [[0,1],[1,0]])` -/
+noncomputable def exKw : Unitaries.UDict ℝ :=
+  [('H', Unitaries.dX), ('S', fun r c => (if r == c then (if r then (0, 1) else (1, 0)) else (0, 0))),
+   ('Y', fun r c => ((if r == c then 0 else 1), 0))]
+
+theorem exKw_unitary : ∀ e ∈ exKw, (m2c e.2)ᴴ * m2c e.2 = 1 := by
+  intro e he
+  simp only [exKw, List.mem_cons, List.not_mem_nil, or_false] at he
+  rcases he with rfl | rfl | rfl
+  · exact C04_dX_unitary
+  · funext r c
+    cases r <;> cases c <;>
+      simp [m2c, Matrix.mul_apply, Matrix.conjTranspose_apply, Complex.ext_iff, QV.toC]
+  · funext r c
+    cases r <;> cases c <;>
+      simp [m2c, Matrix.mul_apply, Matrix.conjTranspose_apply, Complex.ext_iff, QV.toC]
+
+theorem exKw_Z : ∀ e ∈ exKw, e.1 = 'Z' → m2c e.2 = 1 := by
+  intro e he hz
+  simp only [exKw, List.mem_cons, List.not_mem_nil, or_false] at he
+  rcases he with rfl | rfl | rfl <;> simp at hz
+
+end exkw
+
 /-- a vector over the first `N` positions re-indexed by a permutation of the positions (`v[perm]`) -/
 def reidx {β : Type} (N : ℕ) (π : Equiv.Perm (Fin N)) (v : ℕ → β) : ℕ → β :=
   fun k => if hk : k < N then v (π ⟨k, hk⟩).val else v k
